@@ -2,6 +2,7 @@ package phttp
 
 import (
 	"bufio"
+	"bytes"
 	"encoding/json"
 	"fmt"
 	"io"
@@ -11,6 +12,7 @@ import (
 	"strconv"
 	"strings"
 	"sync"
+	"sync/atomic"
 	"time"
 
 	"github.com/formancehq/ledger/verifh/ev"
@@ -20,14 +22,10 @@ import (
 // (POST /logs/import does); a panic there is outside every recover() and kills the whole
 // process. To observe that as an OUTCOME (and go on exploring), cases are executed in
 // child processes: the same binary, started with PHTTP_WORKER set, runs the slice
-// {i : i mod N == k, i > startAfter} of the deterministic case list and reports on fd 3
-//
-//	HASH <hash of the case list>
-//	BEGIN <i>
-//	END <i> <json result>
-//
-// A child that dies between BEGIN i and END i crashed on case i; the parent records
-// that and restarts the slice after i.
+// child processes: the same binary, started with PHTTP_WORKER set, boots its own database,
+// then reads cases on stdin ("<i> <json case>") and answers on fd 3 ("END <i> <json result>").
+// A child that dies while case i is in flight crashed on case i; the parent records that
+// and starts a new child.
 
 const workerEnv = "PHTTP_WORKER"
 
@@ -99,28 +97,27 @@ type caseResult struct {
 	Extra   map[string]string `json:"extra,omitempty"`
 }
 
-// serveWorker runs the child side. exec must not keep state between cases.
-func serveWorker(w *workerSpec, n int, listHash string, exec func(i int) caseResult) int {
+// serveWorker runs the child side: it reads one JSON payload per line on stdin
+// ("<i> <payload>"), executes it and answers on fd 3. exec must not keep state between cases.
+func serveWorker(w *workerSpec, exec func(payload []byte) caseResult) int {
 	out := os.NewFile(3, "results")
 	if out == nil {
 		fmt.Fprintln(os.Stderr, "worker: fd 3 missing")
 		return 2
 	}
 	bw := bufio.NewWriter(out)
-	fmt.Fprintf(bw, "HASH %s\n", listHash)
+	fmt.Fprintf(bw, "READY\n")
 	bw.Flush()
-	for i := 0; i < n; i++ {
-		if i%w.N != w.K || i <= w.StartAfter {
+	sc := bufio.NewScanner(os.Stdin)
+	sc.Buffer(make([]byte, 1<<20), 64<<20)
+	for sc.Scan() {
+		ln := sc.Bytes()
+		sp := bytes.IndexByte(ln, ' ')
+		if sp < 0 {
 			continue
 		}
-		if time.Now().After(w.Deadline) {
-			fmt.Fprintf(bw, "EXPIRED %d\n", i)
-			bw.Flush()
-			return 0
-		}
-		fmt.Fprintf(bw, "BEGIN %d\n", i)
-		bw.Flush()
-		res := exec(i)
+		i, _ := strconv.Atoi(string(ln[:sp]))
+		res := exec(ln[sp+1:])
 		res.I = i
 		b, err := json.Marshal(res)
 		if err != nil {
@@ -129,8 +126,6 @@ func serveWorker(w *workerSpec, n int, listHash string, exec func(i int) caseRes
 		fmt.Fprintf(bw, "END %d %s\n", i, b)
 		bw.Flush()
 	}
-	fmt.Fprintf(bw, "DONE\n")
-	bw.Flush()
 	return 0
 }
 
@@ -189,10 +184,11 @@ func panicSummary(stderr string) string {
 	return head + " | " + strings.Join(frames, " <- ")
 }
 
-// runIsolated is the parent side: it runs cases 0..n-1 in child processes and calls
-// collect for every result (serialised). It returns false when the budget ran out.
-// extraEnv is passed to the children (e.g. the tier).
-func runIsolated(id string, n int, listHash string, deadline time.Time, perCase time.Duration, collect func(caseResult)) (exhaustive bool, err error) {
+// runIsolated is the parent side: it hands cases 0..n-1 (payload(i) = one line of JSON)
+// to NumCPU child processes, one case at a time per child, and calls collect for every
+// result (serialised). A child that dies while a case is in flight crashed on that case.
+// It returns exhaustive=false when the deadline was hit.
+func runIsolated(id string, n int, payload func(i int) []byte, deadline time.Time, perCase time.Duration, collect func(caseResult)) (exhaustive bool, err error) {
 	self, err := os.Executable()
 	if err != nil {
 		return false, err
@@ -214,18 +210,15 @@ func runIsolated(id string, n int, listHash string, deadline time.Time, perCase 
 		}
 		mu.Unlock()
 	}
+	var next atomic.Int64
 	var wg sync.WaitGroup
 	for k := 0; k < N; k++ {
 		wg.Add(1)
 		go func(k int) {
 			defer wg.Done()
-			startAfter := -1
-			restarts := 0
-			for {
-				if time.Now().After(deadline) {
-					mu.Lock()
-					exhaustive = false
-					mu.Unlock()
+			deadStarts := 0
+			for { // one iteration per child process
+				if firstErr != nil {
 					return
 				}
 				pr, pw, err := os.Pipe()
@@ -234,11 +227,16 @@ func runIsolated(id string, n int, listHash string, deadline time.Time, perCase 
 					return
 				}
 				cmd := exec.Command(self, os.Args[1:]...)
-				cmd.Env = append(os.Environ(), fmt.Sprintf("%s=%s:%d:%d:%d:%d", workerEnv, id, k, N, startAfter, deadline.Unix()))
+				cmd.Env = append(os.Environ(), fmt.Sprintf("%s=%s:%d:%d:%d:%d", workerEnv, id, k, N, -1, deadline.Unix()))
 				cmd.ExtraFiles = []*os.File{pw}
 				tail := &tailBuf{max: 64 << 10}
 				cmd.Stderr = tail
 				cmd.Stdout = io.Discard
+				stdin, err := cmd.StdinPipe()
+				if err != nil {
+					setErr(err)
+					return
+				}
 				if err := cmd.Start(); err != nil {
 					pw.Close()
 					pr.Close()
@@ -246,9 +244,7 @@ func runIsolated(id string, n int, listHash string, deadline time.Time, perCase 
 					return
 				}
 				pw.Close()
-				inFlight := -1
-				done, expired := false, false
-				lines := make(chan string, 64)
+				lines := make(chan string, 4)
 				go func() {
 					sc := bufio.NewScanner(pr)
 					sc.Buffer(make([]byte, 1<<20), 64<<20)
@@ -257,82 +253,93 @@ func runIsolated(id string, n int, listHash string, deadline time.Time, perCase 
 					}
 					close(lines)
 				}()
-				timer := time.NewTimer(perCase)
-				hung := false
-			loop:
-				for {
-					select {
-					case ln, ok := <-lines:
-						if !ok {
-							break loop
-						}
-						if !timer.Stop() {
-							select {
-							case <-timer.C:
-							default:
-							}
-						}
-						timer.Reset(perCase)
-						switch {
-						case strings.HasPrefix(ln, "HASH "):
-							if ln[5:] != listHash {
-								setErr(fmt.Errorf("child enumerates a different case list (hash %s, parent %s): generation is not deterministic", ln[5:], listHash))
-							}
-						case strings.HasPrefix(ln, "BEGIN "):
-							inFlight, _ = strconv.Atoi(ln[6:])
-						case strings.HasPrefix(ln, "END "):
-							rest := ln[4:]
-							sp := strings.IndexByte(rest, ' ')
-							var res caseResult
-							if err := json.Unmarshal([]byte(rest[sp+1:]), &res); err != nil {
-								setErr(fmt.Errorf("bad result line: %v", err))
-							} else {
-								mu.Lock()
-								collect(res)
-								mu.Unlock()
-							}
-							startAfter, inFlight = res.I, -1
-						case strings.HasPrefix(ln, "EXPIRED"):
-							expired = true
-						case ln == "DONE":
-							done = true
-						}
-					case <-timer.C:
-						hung = true
-						_ = cmd.Process.Kill()
-						break loop
+				// wait for READY
+				alive := true
+				select {
+				case ln, ok := <-lines:
+					if !ok || ln != "READY" {
+						alive = false
 					}
+				case <-time.After(perCase):
+					alive = false
 				}
-				timer.Stop()
-				_ = cmd.Wait()
-				pr.Close()
-				if done {
-					return
+				if !alive {
+					_ = cmd.Process.Kill()
+					_ = cmd.Wait()
+					pr.Close()
+					deadStarts++
+					if deadStarts > 3 {
+						setErr(fmt.Errorf("worker %d cannot start: %s", k, panicSummary(tail.String())))
+						return
+					}
+					continue
 				}
-				if expired {
+				deadStarts = 0
+				finished := false
+				for alive {
+					if time.Now().After(deadline) {
+						mu.Lock()
+						exhaustive = false
+						mu.Unlock()
+						finished = true
+						break
+					}
+					i := int(next.Add(1) - 1)
+					if i >= n {
+						finished = true
+						break
+					}
+					line := append([]byte(strconv.Itoa(i)+" "), payload(i)...)
+					line = append(line, '\n')
+					if _, err := stdin.Write(line); err != nil {
+						alive = false
+					}
+					var res *caseResult
+					hung := false
+					if alive {
+						select {
+						case ln, ok := <-lines:
+							if !ok {
+								alive = false
+								break
+							}
+							if strings.HasPrefix(ln, "END ") {
+								rest := ln[4:]
+								sp := strings.IndexByte(rest, ' ')
+								var r caseResult
+								if err := json.Unmarshal([]byte(rest[sp+1:]), &r); err != nil {
+									setErr(fmt.Errorf("bad result line: %v", err))
+									alive = false
+								} else {
+									res = &r
+								}
+							}
+						case <-time.After(perCase):
+							hung = true
+							alive = false
+						}
+					}
+					if res == nil {
+						_ = cmd.Process.Kill()
+						_ = cmd.Wait()
+						r := caseResult{I: i, Crashed: true, Stderr: panicSummary(tail.String())}
+						if hung {
+							r.Stderr = fmt.Sprintf("no answer within %v (killed)", perCase)
+							r.Extra = map[string]string{"hung": "true"}
+						}
+						res = &r
+					}
 					mu.Lock()
-					exhaustive = false
+					collect(*res)
 					mu.Unlock()
+				}
+				if finished {
+					stdin.Close()
+					_ = cmd.Wait()
+					pr.Close()
 					return
 				}
-				if inFlight < 0 {
-					setErr(fmt.Errorf("worker %d died outside a case: %s", k, panicSummary(tail.String())))
-					return
-				}
-				res := caseResult{I: inFlight, Crashed: true, Stderr: panicSummary(tail.String())}
-				if hung {
-					res.Stderr = fmt.Sprintf("no answer within %v (killed)", perCase)
-					res.Extra = map[string]string{"hung": "true"}
-				}
-				mu.Lock()
-				collect(res)
-				mu.Unlock()
-				startAfter = inFlight
-				restarts++
-				if restarts > 5000 {
-					setErr(fmt.Errorf("worker %d restarted too often", k))
-					return
-				}
+				pr.Close()
 			}
 		}(k)
 	}
